@@ -675,9 +675,29 @@ def subKeysUniqueB (s : State) : Bool :=
   s.nodes.all fun p => s.nodes.all fun q =>
     p.1 == q.1 || (subKeys p.2).all fun k => !(subKeys q.2).contains k
 
-/-- Stronger reading of the property text: node identity keys included. -/
+/-- All five public keys of a node: identity, consensus, P2P, TLS, VRF. -/
+def allKeys (n : Node) : List Key := n.id :: subKeys n
+
+/-- The uniqueness clause of the property text, identity keys included: the key sets
+{id, consensus, P2P, TLS, VRF} of two different registered nodes are disjoint. -/
 def allKeysUniqueB (s : State) : Bool :=
-  s.nodes.all fun p => s.nodes.all fun q =>
-    p.1 == q.1 || (p.2.id :: subKeys p.2).all fun k => !(q.2.id :: subKeys q.2).contains k
+  s.nodes.keys.all fun i => s.nodes.keys.all fun j =>
+    i == j ||
+    match s.nodes.get i, s.nodes.get j with
+    | some n, some m => (allKeys n).all fun k => !(allKeys m).contains k
+    | _, _ => true
+
+/-- The invariant with the uniqueness clause at the strength of the property text.  This is the
+predicate the harness evaluates on the real state.  The Go code maintains `invB` for every history
+(`Props/C17.lean: inv_reachable`) but **not** the additional clause: identity keys are not in the key
+map, so descriptor verification cannot see that a sub-key is another node's identity key or vice versa
+(`key_uniqueness_incl_identity_fails`, known finding `key-shared-node-id-as-subkey`). -/
+def invStrongB (s : State) : Bool := invB s && allKeysUniqueB s
+
+/-- First failing clause of `invStrongB`. -/
+def invStrongFailure (s : State) : Option String :=
+  match invFailure s with
+  | some f => some f
+  | none => if allKeysUniqueB s then none else some "key-shared-node-id-as-subkey"
 
 end OasisModel.Registry
